@@ -153,6 +153,8 @@ class Scenario:
         """Insertion position biased to start / end / borders of other authors' lines."""
         n = len(lines)
         r = self.rng.random()
+        if self.profile.get("edge_bias"):
+            r = r * 0.7      # first / last line far more often
         if n == 0 or r < 0.2:
             return 0
         if r < 0.4:
@@ -170,7 +172,7 @@ class Scenario:
         kind = self.rng.choice(kinds) if lines else "ins"
         if kind == "ins":
             pos = self.pick_pos(lines, adjacent_to_other=author)
-            k = self.rng.choice([1, 1, 2, 2, 3, 5])
+            k = self.rng.choice([1, 1, 2, 2, 3, 5] if not self.profile.get("edge_bias") else [1, 1, 1, 2])
             lines[pos:pos] = self.new_lines(author, k, lines)
             return "ins@%d+%d" % (pos, k)
         if kind == "del":
@@ -347,6 +349,26 @@ class Scenario:
         if author != "human":
             self.stats["ai_edits"] += 1
         return d
+
+    def do_create(self, author=None, repo=None):
+        """A brand-new (untracked) file written by a person or by an agent."""
+        author = author or self.rng.choice(["human"] + self.sessions)
+        self.n += 1
+        f = "new%d_%s.txt" % (self.n, author[:2].lower())
+        lines = self.new_lines(author, self.rng.choice([2, 3, 5]), [])
+        if author == "human":
+            self.write(f, lines, repo)
+        else:
+            self.pre_ai(author, f, repo)
+            self.write(f, lines, repo)
+            self.post_ai(author, f, repo)
+        self.files.append(f)
+        self.log.append(["edit", f, author, "create+%d" % len(lines)])
+        self.ops.append("e:" + ("h" if author == "human" else "a") + ":create")
+        self.stats["edits"] += 1
+        if author != "human":
+            self.stats["ai_edits"] += 1
+        return f
 
     def pre_ai(self, session, f, repo=None):
         """Checkpoint an agent sends before it edits f (human checkpoint)."""
